@@ -22,7 +22,7 @@ for e in kf:
         r = subprocess.run(["git", "-C", w, "revert", "--no-commit", commit], capture_output=True, text=True)
         if r.returncode != 0:
             print(pid, commit, "REVERT CONFLICT", r.stderr[:150].replace("\n", " ")); continue
-        p = subprocess.run(["./check", pid], cwd=V, env=dict(os.environ, VERIF_REPO=w), capture_output=True, text=True, timeout=3600)
+        p = subprocess.run(["./check", pid], cwd=V, env=dict(os.environ, VERIF_REPO=w), capture_output=True, text=True, timeout=1500)
         found = []
         for l in p.stdout.splitlines():
             if l.startswith("VIOLATION"):
@@ -36,5 +36,5 @@ for e in kf:
     finally:
         subprocess.run(["git", "-C", "/repo", "worktree", "remove", "--force", w], capture_output=True)
 for pid in sorted({p for p, _ in seen}):
-    p = subprocess.run(["./check", pid], cwd=V, capture_output=True, text=True, timeout=3600)
+    p = subprocess.run(["./check", pid], cwd=V, capture_output=True, text=True, timeout=1500)
     print(pid, "unchanged tree: exit=%d" % p.returncode)
